@@ -210,6 +210,7 @@ type StepRec struct {
 	Seed  int64
 	Pairs []string
 	SFiles []string
+	Names map[string]string // abstract pair -> concrete Type.field
 	V     *Verdict
 }
 
@@ -299,8 +300,10 @@ func (r *Replayer) Run(tries map[string]*Trie) {
 		w = 1
 	}
 	type initState struct {
-		snap Snapshot
-		st   *PState
+		snap  Snapshot
+		st    *PState
+		names map[string]pairName
+		types map[string]string
 	}
 	for k := 0; k < w; k++ {
 		wg.Add(1)
@@ -313,10 +316,12 @@ func (r *Replayer) Run(tries map[string]*Trie) {
 			for j := range ch {
 				is, ok := inits[j.init]
 				if !ok {
+					conc.SetNames(j.init)
 					snap, st := r.setupInit(conc, j.init)
-					is = &initState{snap, st}
+					is = &initState{snap, st, conc.names, conc.typeNames}
 					inits[j.init] = is
 				} else if is.st != nil {
+					conc.names, conc.typeNames = is.names, is.types
 					if err := conc.Restore(is.snap); err != nil {
 						r.infra("restore: %v", err)
 						continue
@@ -375,7 +380,7 @@ func (r *Replayer) setupInit(c *Conc, init string) (Snapshot, *PState) {
 	book.Comp, book.Dirty = "unk", "clean"
 	post := WithObs(&book, obs)
 	rec := &StepRec{Kind: "init", Act: PAction{Name: "InitialGenerate"}, Post: post, Obs: obs, Gen: &g, Init: init,
-		Files: c.ReportFiles(), Seed: c.Seed, Pairs: c.Pairs, SFiles: c.Files, Extra: map[string]any{}}
+		Files: c.ReportFiles(), Seed: c.Seed, Pairs: c.Pairs, SFiles: c.Files, Names: c.Names(), Extra: map[string]any{}}
 	diffs := []string{}
 	if !g.OK() {
 		diffs = append(diffs, "generate: "+g.Class)
@@ -611,7 +616,7 @@ func (r *Replayer) exec(c *Conc, init string, e *REdge, path []*REdge, cur *PSta
 		atomic.AddInt64(&r.Stats.Inapplicable, 1)
 		return nil // the real tree is not where the tour's model expected it: the action does not apply (drift)
 	}
-	rec := &StepRec{Kind: "edit", Act: a, Path: path, Init: init, Seed: c.Seed, Pairs: c.Pairs, SFiles: c.Files, Extra: map[string]any{}}
+	rec := &StepRec{Kind: "edit", Act: a, Path: path, Init: init, Seed: c.Seed, Pairs: c.Pairs, SFiles: c.Files, Names: c.Names(), Extra: map[string]any{}}
 	pre := *cur
 	pre.Comp = "unk"
 	if a.Name == "Generate" {
@@ -754,7 +759,7 @@ func ReplayObject(rec *StepRec) map[string]any {
 		edges = append(edges, map[string]json.RawMessage{"s": json.RawMessage(e.S), "a": e.Raw, "t": json.RawMessage(e.T)})
 	}
 	o := map[string]any{"path": PathString(rec.Path), "edges": edges, "step": rec.Kind,
-		"seed": rec.Seed, "pairs": rec.Pairs, "files": rec.SFiles, "files_after": rec.Files}
+		"seed": rec.Seed, "pairs": rec.Pairs, "files": rec.SFiles, "files_after": rec.Files, "names": rec.Names}
 	if rec.Init != "" {
 		o["init"] = json.RawMessage(rec.Init)
 	}
